@@ -76,6 +76,13 @@ MUTANTS = [
     ("C05", "norm_keeps_parity", G + "geometric/geometric_image.py", "return self.__class__(norm(self.D, self.data), 0, self.D, self.is_torus)", "return self.__class__(norm(self.D, self.data), self.parity, self.D, self.is_torus)", "norm of a pseudo-tensor declared pseudo-scalar"),
     ("C05", "add_no_parity_assert", G + "geometric/geometric_image.py", "        assert self.parity == other.parity\n        assert self.is_torus == other.is_torus\n        assert self.data.shape == other.data.shape\n        return self.__class__(self.data + other.data", "        assert self.is_torus == other.is_torus\n        assert self.data.shape == other.data.shape\n        return self.__class__(self.data + other.data", "__add__ no longer rejects operands of different parity"),
     ("C05", "contract_letters", G + "geometric/functional_geometric_image.py", "        einstr[idx1 + idx_shift] = einstr[idx2 + idx_shift] = LETTERS[-(i + 1)]", "        einstr[idx1 + idx_shift] = einstr[idx2 + idx_shift] = LETTERS[-(min(i, 0) + 1)]", "all contraction pairs share one letter"),
+    ("C08", "affine_pseudoscalar", G + "ml/layers.py", "groups, in_c, eps, channelwise_affine=(p == 0)", "groups, in_c, eps", "the original defect: affine norm on pseudoscalars"),
+    ("C08", "vector_bias_additive", G + "ml/layers.py", "whitened_data = whitened_data * self.scale[(k, p)] + self.bias[(k, p)] * mean_vec", "whitened_data = whitened_data * self.scale[(k, p)] + self.bias[(k, p)]", "plain additive bias on vectors (zero at initialisation)"),
+    ("C08", "cholesky", G + "ml/layers.py", "whitened_data = _group_norm_K1(self.D, image_block, self.groups, eps=self.eps)", "whitened_data = _group_norm_K1(self.D, image_block, self.groups, method=\"cholesky\", eps=self.eps)", "cholesky whitening (depends on the axis order)"),
+    ("C08", "mean_over_tensor_axis", G + "ml/layers.py", "    mean = jnp.mean(image_grouped, axis=tuple(range(1, 2 + D)), keepdims=True)  # (G,1,(1,)*D,D)", "    mean = jnp.mean(image_grouped, axis=tuple(range(1, 3 + D)), keepdims=True)", "statistics averaged over the vector components too"),
+    ("C08", "vn_guard_k0", G + "ml/layers.py", "            if (k, p) == (0, 0):\n                out_x.append(k, p, self.scalar_activation(img_block))", "            if k == 0:\n                out_x.append(k, p, self.scalar_activation(img_block))", "scalar activation applied directly to pseudo-scalars"),
+    ("C08", "maxpool_no_norm", G + "ml/layers.py", "vmap_max_pool(x.D, image_block, self.patch_len, self.use_norm)", "vmap_max_pool(x.D, image_block, self.patch_len, self.use_norm and k > 0)", "scalars pooled by signed value instead of norm (breaks pseudo-scalars)"),
+    ("C08", "unpool_asymmetric", G + "geometric/geometric_image.py", "padding=((patch_len - 1,) * 2,) * self.D,", "padding=((patch_len - 1, patch_len - 2 + (patch_len == 2)),) * (self.D - 1) + ((patch_len - 1,) * 2,),", "harmless for patch 2, asymmetric for patch 3"),
     ("C19", "le", G + "ml/stopping_conditions.py", "if train_loss < (self.best_train_loss - self.min_delta):", "if train_loss <= (self.best_train_loss - self.min_delta):", "non-strict improvement test"),
     ("C19", "ge_patience", G + "ml/stopping_conditions.py", "        return self.epochs_since_best > self.patience\n\n\nclass ValLoss", "        return self.epochs_since_best >= self.patience\n\n\nclass ValLoss", "stops one epoch early"),
     ("C19", "no_reset", G + "ml/stopping_conditions.py", "            self.best_model = model\n            self.epochs_since_best = 0\n\n            if self.verbose >= 1:\n                self.log_status(current_epoch, train_loss, val_loss, epoch_time)\n        else:\n            self.epochs_since_best += 1\n\n        return self.epochs_since_best > self.patience\n\n\nclass ValLoss", "            self.best_model = model\n\n            if self.verbose >= 1:\n                self.log_status(current_epoch, train_loss, val_loss, epoch_time)\n        else:\n            self.epochs_since_best += 1\n\n        return self.epochs_since_best > self.patience\n\n\nclass ValLoss", "counter not reset on improvement"),
